@@ -269,7 +269,7 @@ class Prop:
                 t1 = rand_nodes(rng, rng.randint(0, nmax), k)
             yield dict(univ=LABELS[:k], t0=t0, t1=t1)
         # inputs whose nodes carry user metadata (on changed and on unchanged nodes); diff must neither copy nor touch it
-        nmeta = 140 if tier == "quick" else 1500
+        nmeta = 120 if tier == "quick" else 800
         small_all = [f for n in range(1, 4) for f in small[n]]
         for i in range(nmeta):
             k = rng.choice([3, 3, 4])
@@ -291,7 +291,7 @@ class Prop:
                 d = dict(d, typed=True, t0=[[l, "k1", x, c] for l, _, x, c in t0], t1=[[l, "k1", x, c] for l, _, x, c in t1])
             yield d
         # histories: diff, edit the same tree objects in place (mostly keeping the child counts), diff again
-        nhist = 220 if tier == "quick" else 1500
+        nhist = 160 if tier == "quick" else 800
         for i in range(nhist):
             k = rng.choice([3, 4, 4, 6])
             t0 = rand_nodes(rng, rng.randint(2, 9), k)
@@ -657,16 +657,19 @@ def obs_forest(root, U):
 
 # ---------------------------------------------------------------------------
 def twice_copied_dids(p0, p1):
-    """data_ids of the t1 nodes that diff copies twice (their top is matched by == and also added by data_id)"""
+    """data_ids of the t1 nodes that diff copies twice (their top is matched by == and also added by data_id, or is the
+    peer of two == siblings of t0)"""
     out = set()
     ch0, ch1 = p0._children or [], p1._children or []
     ids0 = {c._data_id for c in ch0}
+    peers = []
     for c0 in ch0:
         c1 = next((c for c in ch1 if c._data == c0._data), None)
         if c1 is None:
             continue
-        if c1._data_id not in ids0:
+        if c1._data_id not in ids0 or any(c1 is q for q in peers):   # matched AND added, or the peer of two == t0 siblings
             out.update(n._data_id for n in B.all_nodes(c1))
+        peers.append(c1)
         out |= twice_copied_dids(c0, c1)
     return out
 
